@@ -67,7 +67,7 @@ def jobStep (P : Params) (s : Sys) (j : Nat) (jr : JobRec) (o : Obj) : JobRec ×
     | (jr2, .ok false) =>
       match jr2.js.objs.getLast?, jr2.js.budgets.getLast? with
       | some (.num q), some b =>
-        let r := decide' false P (s.set j jr2) jr2 b q
+        let r := decide' .fixed P (s.set j jr2) jr2 b q
         (haltIf r.1 r.2, r.2)
       | _, _ => ({ jr2 with halted := true }, .error .indexError)
 
@@ -98,7 +98,7 @@ theorem protoStep_eq (P : Params) (s : Sys) (j : Nat) (jr : JobRec) (o : Obj)
         rcases hq : jr2.js.objs.getLast? with _ | (q | t) <;>
           rcases hb : jr2.js.budgets.getLast? with _ | b <;>
           simp [markHalted_set, hlt, List.set_set]
-        rcases hd : decide' false P (s.set j jr2) jr2 b q with ⟨jr3, e | b3⟩
+        rcases hd : decide' .fixed P (s.set j jr2) jr2 b q with ⟨jr3, e | b3⟩
         · simp [haltIf, markHalted_set, hlt, List.set_set]
         · cases b3 <;> simp [haltIf, markHalted_set, hlt, List.set_set]
       · simp [markHalted_set, hlt, List.set_set]
@@ -396,11 +396,11 @@ theorem baseStop_spec (P : Params) (jr : JobRec) (o : Obj) (b : Nat)
       · refine ⟨jr, ?_, ⟨rfl, rfl, rfl, rfl, fun _ => rfl⟩⟩
         simp [baseStop, hc, ho, hb, baseResult, hm]
 
-theorem decide_spec (P : Params) (s : Sys) (jr : JobRec) (b : Nat) (q : Rat) :
-    (decide' false P s jr b q).1.md = jr.md ∧ (decide' false P s jr b q).1.halted = jr.halted ∧
-    (decide' false P s jr b q).1.js.objs = jr.js.objs ∧ (decide' false P s jr b q).1.js.budgets = jr.js.budgets ∧
-    ((decide' false P s jr b q).2 = .ok false →
-      (decide' false P s jr b q).1.js.rung = if decTest P jr.js.rung b = true then jr.js.rung + 1 else jr.js.rung) := by
+theorem decide_spec (P : Params) (s : Sys) (jr : JobRec) (b : Nat) (q : ERat) :
+    (decide' .fixed P s jr b q).1.md = jr.md ∧ (decide' .fixed P s jr b q).1.halted = jr.halted ∧
+    (decide' .fixed P s jr b q).1.js.objs = jr.js.objs ∧ (decide' .fixed P s jr b q).1.js.budgets = jr.js.budgets ∧
+    ((decide' .fixed P s jr b q).2 = .ok false →
+      (decide' .fixed P s jr b q).1.js.rung = if decTest P jr.js.rung b = true then jr.js.rung + 1 else jr.js.rung) := by
   cases hk : P.kind with
   | idle => simp [decide', hk, decTest]
   | const st => simp [decide', hk, decTest]
@@ -421,7 +421,7 @@ theorem decide_spec (P : Params) (s : Sys) (jr : JobRec) (b : Nat) (q : Rat) :
             · simp
             · split <;> simp [bumpRung]
   | median ms mc iv eps =>
-    simp only [decide', hk, decTest, medianDecide, Bool.false_eq_true, if_false]
+    simp only [decide', hk, decTest, medianDecide]
     rcases medianIsHalting ms iv b with _ | _ | _
     · simp
     · simp
@@ -545,7 +545,7 @@ theorem jobStep_inv {P : Params} (hv : RungValid P) (s : Sys) (j : Nat) (jr : Jo
     have hb2 : jr2.js.budgets.getLast? = some (jr.js.budgets.length + 1) := by rw [B.budgets, hb1]
     simp only [ho2, hb2]
     obtain ⟨hdmd, hdh, hdo, hdb, hdr⟩ := decide_spec P (s.set j jr2) jr2 (jr.js.budgets.length + 1) q
-    generalize hd : decide' false P (s.set j jr2) jr2 (jr.js.budgets.length + 1) q = res at *
+    generalize hd : decide' .fixed P (s.set j jr2) jr2 (jr.js.budgets.length + 1) q = res at *
     obtain ⟨jr3, r⟩ := res
     simp only at hdmd hdh hdo hdb hdr ⊢
     have hobjs3 : jr3.js.objs = jr.js.objs ++ [o] := by rw [hdo, hobjs2]
